@@ -36,6 +36,7 @@ type obs struct {
 	idx int
 	c   Case
 	res result
+	coq string // the case as a Coq term (empty: not comparable with the model)
 }
 
 func runCase(run *vh.Run, idx int, c Case) *obs {
@@ -55,8 +56,9 @@ func runCase(run *vh.Run, idx int, c Case) *obs {
 	for _, f := range c.Frags {
 		frags[f.Name] = f
 	}
-	mono, monoErr := runMonolith(&c, fedgen.NewWorld(c.Seed))
+	mono, monoErr := runMonolith(&c, w)
 	ob.res.monoJSON, ob.res.monoErr = mono, monoErr
+	var flatTerm, planTerm string = "None", "None"
 
 	// plan and normalised query (through the verif hooks) on a separate parse
 	if q, perr := graphql.Parse(text, c.variables()); perr == nil {
@@ -71,12 +73,46 @@ func runCase(run *vh.Run, idx int, c Case) *obs {
 				ob.res.planErr = firstLine(err.Error())
 			} else {
 				ob.res.plan = p
+				planTerm = "(Some " + goPlan(p) + ")"
+			}
+		}()
+	}
+	if q, perr := graphql.Parse(text, c.variables()); perr == nil {
+		func() {
+			defer func() { recover() }()
+			if f, err := g.exec.VerifFlatten(q); err == nil && f != nil {
+				flatTerm = "(Some " + goSelSet(f, true) + ")"
 			}
 		}()
 	}
 
 	gw, gwErr, timedOut := runGateway(g, &c)
 	ob.res.gwJSON, ob.res.gwErr, ob.res.timedOut = gw, gwErr, timedOut
+	answerTerm := "None"
+	if gwErr == "" && !timedOut {
+		answerTerm = "(Some " + vh.CoqJSON(gw) + ")" // before any stripping
+	}
+	defer func() {
+		// the Coq case: structured query, reference available, every union selection covers all members (the
+		// null thunder's executor renders for an uncovered member, DESIGN F5, is not part of the model's contract)
+		if c.QueryText != "" || timedOut || g.sync.last == nil || hasPartialUnion(&c, frags) {
+			return
+		}
+		ref, refErr := runReference(&c, w)
+		if refErr != "" {
+			return
+		}
+		refC, _ := canonJSON(ref)
+		info := gschemaCoq(g.sync.last, &c)
+		np := &nodePrinter{c: &c, frags: frags, fields: fieldMap(c.Services)}
+		qTerm := np.selsCoq("Query", c.Query)
+		if np.bad {
+			return
+		}
+		calls, orgs := worldCoq(w, fieldMap(c.Services))
+		ob.coq = fmt.Sprintf("mk_case %s %s %s %s %s %s %s %s (Some %s)", info.term, calls, orgs, qTerm, vh.CoqBool(info.explicit),
+			flatTerm, planTerm, answerTerm, vh.CoqJSON(refC))
+	}()
 	g.mu.Lock()
 	ob.res.subs = append([]subRequest{}, g.log...)
 	g.mu.Unlock()
@@ -125,7 +161,7 @@ func runCase(run *vh.Run, idx int, c Case) *obs {
 	case gwErr != "":
 		run.Hist("outcome:gateway-error-only")
 		sig := "gateway-error-monolith-ok"
-		if strings.Contains(gwErr, "not an object") || strings.Contains(gwErr, "failed to extract keys") {
+		if strings.Contains(gwErr, "not an object: map[]") {
 			sig = "gateway-fails-on-null-at-service-hop"
 		}
 		run.Fail(idx, sig, fmt.Sprintf("gateway: %s; monolith: %s; query: %s", short(gwErr, 300), short(js(mono), 200), short(text, 400)), c)
@@ -135,7 +171,7 @@ func runCase(run *vh.Run, idx int, c Case) *obs {
 		gwN := normaliseUnions(stripAt(gw, "", strips), "", strips)
 		monoN := normaliseUnions(mono, "", strips)
 		ob.res.gwJSON = gwN
-		ref, refErr := runReference(&c)
+		ref, refErr := runReference(&c, w)
 		var refN interface{}
 		if refErr == "" {
 			refN, _ = canonJSON(ref)
